@@ -34,6 +34,7 @@ type TokenGameResult struct {
 	Requests   map[string]int
 	Quiesced   bool
 	AllFired   bool
+	Timeouts   int
 }
 
 func findNodeIn(d *Definitions, id string) *Node {
@@ -68,7 +69,10 @@ func CheckTokenGame(pfx string, prog *Program, hist []simlog.Ev) *TokenGameResul
 	var errs []string
 	var finalVars map[string]any
 	cancelled := false
-	for _, ev := range hist {
+	taskErrWant := map[string]int{}
+	taskErrGot := map[string]int{}
+	retried := map[string]int{}
+	for hi, ev := range hist {
 		if len(vl.v) > 0 {
 			// the model has lost track: everything after the first unexplained observation is a cascade
 			res.Viol = vl.v
@@ -97,14 +101,71 @@ func CheckTokenGame(pfx string, prog *Program, hist []simlog.Ev) *TokenGameResul
 			}
 		case "ans":
 			r, _ := ev.V.(map[string]any)
-			if e := m.Answer(ev.A, r, nil); e != "" {
+			objs, _ := r["__objects"].(map[string]any)
+			if e := m.Answer(ev.A, r, objs); e != "" {
 				vl.add(pfx+"/harness", "step %d: %s", ev.Step, e)
+			}
+		case "ans-err", "ans-skip":
+			taskErrWant[ev.A]++
+			if e := m.Answer(ev.A, nil, nil); e != "" {
+				vl.add(pfx+"/harness", "step %d: %s", ev.Step, e)
+			}
+		case "ans-exit":
+			taskErrWant[ev.A]++
+			if e := m.Drop(ev.A); e != "" {
+				vl.add(pfx+"/harness", "step %d: %s", ev.Step, e)
+			}
+		case "ans-retry":
+			taskErrWant[ev.A]++
+			// the token is re-requested at most ev.N additional times, otherwise consumed: look ahead
+			more := 0
+			for _, later := range hist[hi+1:] {
+				if later.Kind == "t:task" && later.A == ev.A {
+					more++
+				}
+				if later.Kind == "quiescent" || later.Kind == "cancel" {
+					break
+				}
+			}
+			retried[ev.A]++
+			if more > 0 {
+				if retried[ev.A] > ev.N {
+					vl.add(pfx+"/retried-too-often", "step %d: activity %s is requested again after %d error answers with retry count %d", ev.Step, ev.A, retried[ev.A], ev.N)
+				}
+				if e := m.Rerequest(ev.A); e != "" {
+					vl.add(pfx+"/harness", "step %d: %s", ev.Step, e)
+				}
+			} else {
+				if e := m.Drop(ev.A); e != "" {
+					vl.add(pfx+"/harness", "step %d: %s", ev.Step, e)
+				}
 			}
 		case "t:visit":
 			if n := g.Node(ev.A); n != nil && n.Kind == "end" {
 				visitsEnd[ev.A]++
 			}
 		case "t:error":
+			if strings.Contains(ev.A, "TaskExecError") {
+				// "call task '<id>': <reason>"
+				id := ""
+				if i := strings.Index(ev.B, "'"); i >= 0 {
+					if j := strings.Index(ev.B[i+1:], "'"); j >= 0 {
+						id = ev.B[i+1 : i+1+j]
+					}
+				}
+				if strings.Contains(ev.B, "timed out") {
+					if n := findNodeIn(prog.Defs, id); n != nil && n.Timeout != "" {
+						// the task's own time-out answers the request: the token continues without results
+						res.Timeouts++
+						if e := m.Answer(id, nil, nil); e != "" {
+							vl.add(pfx+"/timeout-unexpected", "step %d: time-out error for %s: %s", ev.Step, id, e)
+						}
+						continue
+					}
+				}
+				taskErrGot[id]++
+				continue
+			}
 			errs = append(errs, ev.A+": "+ev.B)
 		case "t:cease":
 			if ev.A != g.ID {
@@ -172,6 +233,17 @@ func CheckTokenGame(pfx string, prog *Program, hist []simlog.Ev) *TokenGameResul
 	} else if len(m.Waiting()) == 0 && len(m.Pending()) == 0 {
 		// tokens parked at joins / stuck gateways: the instance must not report completion (checked above)
 	}
+	// error traces of error answers: one per error answer
+	for id, n := range taskErrWant {
+		if taskErrGot[id] != n {
+			vl.add(pfx+"/error-trace-count", "activity %s was answered with an error %d time(s), ErrorTrace naming it seen %d time(s)", id, n, taskErrGot[id])
+		}
+	}
+	for id, n := range taskErrGot {
+		if taskErrWant[id] == 0 {
+			vl.add(pfx+"/unexpected-error-trace", "ErrorTrace for task %s (%d) although no error answer was given", id, n)
+		}
+	}
 	// error traces
 	wantErr := map[string]int{}
 	for _, id := range m.Errors {
@@ -224,6 +296,11 @@ func CheckTokenGame(pfx string, prog *Program, hist []simlog.Ev) *TokenGameResul
 					sb = sb[:i]
 				}
 				a, b = sa, sb
+			}
+			if sa, ok := a.(string); ok && strings.HasPrefix(k, "r_") {
+				if i := strings.LastIndex(sa, "."); i > 0 && strings.Contains(sa, "#") {
+					a = sa[:i] // which of several Do calls took effect is checked by the C08 oracle
+				}
 			}
 			if aok != bok || canon(a) != canon(b) {
 				vl.add(pfx+"/variables", "variable %s: engine has %v (present=%v), token game has %v (present=%v)", k, a, aok, b, bok)
